@@ -74,6 +74,14 @@ def main(tier):
     apicheck.run_histories(ck, ["mat", "vals", "gssvx", "destroy", "equil", "trans"], 3, 120 if quick else 1200, rng, precs=("d", "s", "z", "c"),
                            threads=(1, 2), nmax=20, validate_pipe=False,
                            hist_filter=lambda h: any(c["call"] == "gssvx" and c["fact"] == "EQUILIBRATE" for c in h))
+    # an exactly zero row or column: ?gsequ reports it, nothing is scaled and the flag must say so -- also when the caller's equed variable
+    # still holds BOTH / ROW / COL from an equilibrating call on the previous system
+    def stale_then_zero(h):
+        mats = [i for i, c in enumerate(h) if c["call"] == "mat"]
+        return (len(mats) == 2 and not h[mats[0]].get("sing") and h[mats[1]].get("sing") and mats[1] == 2 and len(h) == 4
+                and all(c["call"] == "gssvx" and c["fact"] == "EQUILIBRATE" and c["lw"] == "sys" for c in (h[1], h[3])))
+    apicheck.run_histories(ck, ["mat", "gssvx", "equil", "trans", "singular"], 4, 24 if quick else 240, rng, precs=("d", "s", "z", "c"),
+                           threads=(1, 2), nmax=16, validate_pipe=False, hist_filter=stale_then_zero, tag="_zero")
     return ck.finish()
 
 
